@@ -10,10 +10,10 @@ import shutil
 import sys
 import tempfile
 
-GAMMA = {"neg": -0.1, "zero": 0.0, "mid": 0.5, "one": 1.0, "above": 1.1, "int_zero": 0, "int_one": 1}
+GAMMA = {"neg": -0.1, "zero": 0.0, "mid": 0.5, "one": 1.0, "above": 1.1, "int_zero": 0, "int_one": 1, "nan": float("nan")}
 EPS = {"neg": -1.0, "zero": 0.0, "tiny": 1e-12, "small": 1e-3, "half": 0.5, "two": 2.0, "twenty": 20.0,
-       "twohundred": 200.0, "million": 1e6, "int_one": 1, "int_hundred": 100}
-PLEV = {"neg": -0.1, "zero": 0.0, "tenth": 0.1, "mid": 0.25, "one": 1.0, "above": 1.5}
+       "twohundred": 200.0, "million": 1e6, "int_one": 1, "int_hundred": 100, "nan": float("nan")}
+PLEV = {"neg": -0.1, "zero": 0.0, "tenth": 0.1, "mid": 0.25, "one": 1.0, "above": 1.5, "nan": float("nan")}
 
 
 def classes(kind):
